@@ -119,8 +119,14 @@ def build_pool(seed):
         for q in ['1.234,56', '1,234.56', '1,234', '1.234', '12,345', '-12.345', '1,234,567', '1.234.567', '12,5%', '12.5%']:
             add('number', q, c)
             add('percentage', q, c)
-    for q in ['yes', 'not ok', 'İ know yes']:
+    # the same query in other letter cases (a memo keyed by the lower-cased text would leak the first spelling)
+    for q in ['yes', 'YES', 'Yes', 'not ok', '(Not OK)', '(not ok)', 'NOT OK', 'İ know yes', 'ok', 'OK', 'Ok then']:
         add('boolean', q, 'en-us')
+    for q in ['tomorrow at 3pm', 'TOMORROW AT 3PM', 'Tomorrow At 3PM', 'next Monday', 'NEXT MONDAY', 'next monday']:
+        add('datetime', q, 'en-us')
+    for q in ['twenty one', 'Twenty One', 'TWENTY ONE', '5 KM', '5 km', '5 Km']:
+        add('number', q, 'en-us')
+        add('dimension', q, 'en-us')
     # 5. options of the date-time recogniser
     for o in (0, 1, 2, 4):
         add('datetime', 'from 4pm to 5pm tomorrow', 'en-us', options=o)
